@@ -150,4 +150,31 @@ theorem fromBase64_spec (inp : List Nat) (hb : ∀ b ∈ inp, b < 256) :
       simp only [List.take_zero, List.nil_append] at htake
       simp only [if_pos (hbound j' out' hr.symm), htake]
 
+/-! ### the accepted language: prefixes of alphabet characters -/
+/-- the 6-bit values of a run of alphabet characters -/
+def b64Vals (pre : List Nat) : List Nat := pre.filterMap Spec.b64Val?
+
+theorem scan_prefix (pre : List Nat) (hpre : ∀ c ∈ pre, (Spec.b64Val? c).isSome = true) (tl : List Nat) :
+    Spec.b64Scan (pre ++ tl) = (Spec.b64Scan tl).map (b64Vals pre ++ ·) := by
+  induction pre with
+  | nil => simp [b64Vals]
+  | cons c cs ih =>
+    have hc := hpre c (List.mem_cons_self ..)
+    obtain ⟨v, hv⟩ := Option.isSome_iff_exists.mp hc
+    have h61 := (val_is_char c v hv).2.2
+    rw [List.cons_append, scan_val c v _ hv h61, ih (fun x hx => hpre x (List.mem_cons_of_mem _ hx))]
+    cases Spec.b64Scan tl with
+    | none => rfl
+    | some r => simp [b64Vals, hv]
+
+theorem high_not_alphabet (b : Nat) (h : 123 ≤ b) : Spec.b64Val? b = none := by
+  unfold Spec.b64Val?
+  rw [if_neg (by omega), if_neg (by omega), if_neg (by omega), if_neg (by omega), if_neg (by omega)]
+
+/-- the translated per-byte tests (guard, table read, marker, pad test in their source order) classify ALL 256 byte
+    values exactly as the RFC 4648 alphabet does; no table read is out of bounds -/
+theorem b64Byte_classifies : ∀ b, b < 256 →
+    b64Byte b = .ok (if b = 61 then .stop else match Spec.b64Val? b with | some v => .val v | none => .reject) := by
+  decide +kernel
+
 end Nstd.Codec
